@@ -313,9 +313,13 @@ class Lexer(ITokenizer):
 			if index == -1:
 				break
 
-			prev = max(end, index - 1)
+			# XXX 直前の連続したバックスラッシュが偶数個の場合、引用符はエスケープされていない
+			escapes = 0
+			while index - escapes - 1 >= end and source[index - escapes - 1] == '\\':
+				escapes += 1
+
 			end = index + len(pair['close'])
-			if not (source[prev] == '\\'):
+			if escapes % 2 == 0:
 				break
 
 		value = source[begin:end]
